@@ -15,6 +15,9 @@ use std::collections::HashMap;
 #[derive(Serialize, Deserialize, Clone, Debug)]
 pub struct CorrTrain {
     pub east: bool,
+    /// eastern terminal = the branch terminal instead of the main-line one
+    #[serde(default)]
+    pub branch: bool,
     pub train: TrainSpec,
 }
 
@@ -31,12 +34,13 @@ pub struct Built {
     pub ods: Vec<(Vec<u32>, Vec<u32>)>,
 }
 
-pub fn od_links(c: &Corridor, east: bool) -> (Vec<u32>, Vec<u32>) {
-    let n = c.fwd.len();
+pub fn od_links(c: &Corridor, east: bool, branch: bool) -> (Vec<u32>, Vec<u32>) {
+    // eastern terminal: last main-line stage, or last branch stage
+    let e = if branch && c.fwd.len() > c.n_main { c.fwd.len() - 1 } else { c.n_main - 1 };
     if east {
-        (c.fwd[0].clone(), c.fwd[n - 1].clone())
+        (c.fwd[0].clone(), c.fwd[e].clone())
     } else {
-        (c.rev[n - 1].clone(), c.rev[0].clone())
+        (c.rev[e].clone(), c.rev[0].clone())
     }
 }
 
@@ -45,7 +49,7 @@ pub fn build(case: &DispatchCase) -> anyhow::Result<Built> {
     let mut slts = vec![];
     let mut ods = vec![];
     for (i, t) in case.trains.iter().enumerate() {
-        let (o, d) = od_links(&corridor, t.east);
+        let (o, d) = od_links(&corridor, t.east, t.branch);
         let mut lm: HashMap<String, Vec<Location>> = HashMap::new();
         lm.insert("O".into(), o.iter().map(|l| location("O", *l)).collect());
         lm.insert("D".into(), d.iter().map(|l| location("D", *l)).collect());
@@ -110,7 +114,13 @@ pub fn gen_dispatch_case(g: &mut Gen, max_trains: usize, o: &CorridorOpts) -> Di
         .map(|s| s.length)
         .unwrap_or(f64::INFINITY)
         .min(net.stages.last().unwrap().side.as_ref().map(|s| s.length).unwrap_or(f64::INFINITY));
-    let max_len = term.min(term_side) - 200.0;
+    let bterm = net
+        .branch
+        .as_ref()
+        .and_then(|b| b.stages.last())
+        .map(|s| s.main.length.min(s.side.as_ref().map(|x| x.length).unwrap_or(f64::INFINITY)))
+        .unwrap_or(f64::INFINITY);
+    let max_len = term.min(term_side).min(bterm) - 200.0;
     let mut trains = vec![];
     // departure pattern: all equal / bunched within a few minutes / spread over an hour
     let pattern = g.weighted(&[2, 4, 4]);
@@ -121,8 +131,10 @@ pub fn gen_dispatch_case(g: &mut Gen, max_trains: usize, o: &CorridorOpts) -> Di
             1 => Gen::round(g.f64(0.0, 600.0), 0),
             _ => Gen::round(g.f64(0.0, 3600.0), 0),
         };
-        let east = if i == 0 { g.bool(0.5) } else { g.bool(0.5) };
-        trains.push(CorrTrain { east, train: t });
+        let east = g.bool(0.5);
+        let branch = net.branch.is_some() && g.bool(0.5);
+        let _ = i;
+        trains.push(CorrTrain { east, branch, train: t });
     }
     DispatchCase { net, trains }
 }
@@ -136,6 +148,8 @@ pub fn scenario_labels(case: &DispatchCase, cx: &mut Ctx) {
     cx.label_if(yard0 && yard1, "yard_terminals");
     cx.label_if(case.net.total_main_length() < 5.0 * 1609.344, "short_route");
     cx.label_if(case.net.lockout_stage.is_some(), "lockout_declared");
+    cx.label_if(case.net.branch.is_some(), "y_junction");
+    cx.label_if(case.trains.iter().any(|t| t.branch) && case.trains.iter().any(|t| !t.branch), "trains_to_both_eastern_terminals");
     let e = case.trains.iter().filter(|t| t.east).count();
     cx.label_if(e > 0 && e < case.trains.len(), "both_directions");
     cx.label(&format!("trains_{}", case.trains.len().min(8)));
